@@ -654,6 +654,7 @@ func ruleC04KeyEncoding(c *Ctx) {
 		}
 		n++
 		var reader *Term
+		sawPctV := false
 		vals, seps, stores, lens := 0, 0, 0, 0
 		order := []string{}
 		for _, e := range p.Effects {
@@ -666,9 +667,20 @@ func ruleC04KeyEncoding(c *Ctx) {
 				}
 			case e.Kind == "call" && isTextBufferWrite(e.Callee) && !strings.HasSuffix(e.Callee, ").Write"):
 				a := e.Args[len(e.Args)-1]
-				isText := func(t *Term) bool {
+				// the text of a key value: the decimal text the comparison family uses for a number against a string
+				// (TextOf: floats without an exponent). The %v text is NOT that text: it prints float64(1500000) as
+				// 1.5e+06 and int 1500000 as 1500000, so the hash path misses a pair the nested loop finds
+				isPctV := func(t *Term) bool {
 					sa, ok := callArgs(t, "fmt.Sprintf")
 					return ok && len(sa) == 2 && sa[0].Name == `"%v"` && reader != nil && sa[1].Contains(func(x *Term) bool { return x.V == reader.V })
+				}
+				isText := func(t *Term) bool {
+					if isPctV(t) {
+						sawPctV = true
+						return true
+					}
+					ta, ok := callArgs(t, "TextOf")
+					return ok && len(ta) == 1 && reader != nil && ta[0].Contains(func(x *Term) bool { return x.V == reader.V })
 				}
 				isLenOfText := func(t *Term) bool {
 					return t.Contains(func(x *Term) bool {
@@ -717,6 +729,9 @@ func ruleC04KeyEncoding(c *Ctx) {
 		}
 		if stores != 1 {
 			why = append(why, fmt.Sprintf("per column: %d key-map stores", stores))
+		}
+		if sawPctV {
+			why = append(why, "a key value contributes its %v text: float64(1500000) is written 1.5e+06 and int 1500000 is written 1500000, so an equi-join on the hash path does not pair two keys that `=` (and the nested loop) call equal — the text must be the decimal text (TextOf)")
 		}
 	}
 	if n == 0 {
